@@ -94,7 +94,9 @@ Theorem C15B_rha_is_nearest_away :
 Proof. exact rha_is_ZnearestA. Qed.
 
 (** (B6) Hence the round trip of Properties/C15.v (3) at the Flocq level: encoding an in-range double with
-    Flocq's operations and decoding the word with Flocq's operations gives back the same bit pattern. *)
+    Flocq's operations and decoding the word with Flocq's operations gives back the same bit pattern.
+    [in_gds_range] is the whole normalised range 16^-65 <= |x| < 16^63 (2^-260 <= |x| < 2^252), the lowest
+    hex decade (exponent byte 0) included since 2026-10-02. *)
 Theorem C15B_decode_encode_flocq :
   forall est x, word64 x -> in_gds_range x ->
     bits_of_b64 (flocq_decode (flocq_encode_with est (b64_of_bits x))) = x.
@@ -102,7 +104,9 @@ Proof. exact decode_encode_flocq. Qed.
 
 (** Non-vacuity: Flocq's operations compute inside Coq. 2.0 <-> 0x4120000000000000; a negative value; the
     smallest subnormal and the largest double (outside the format's range, still equal to the model); a
-    mantissa that needs rounding with a carry (0x41FFFFFFFFFFFFFF). *)
+    mantissa that needs rounding with a carry (0x41FFFFFFFFFFFFFF); a double of the lowest hex decade
+    (1e-78 = 0x2FBDA48CE468E7C7 <-> 0x001DA48CE468E7C7, exponent byte 0) through Flocq's operations both ways,
+    with estimates on both sides of the true exponent -64. *)
 Example C15B_nonvacuous :
   bits_of_b64 (flocq_decode 4692750811720056832) = 4611686018427387904 /\
   flocq_encode_with 0 (b64_of_bits 4611686018427387904) = 4692750811720056832 /\
@@ -113,7 +117,12 @@ Example C15B_nonvacuous :
   flocq_encode_with (-3) (b64_of_bits 1) = gds_encode 1 /\
   flocq_encode_with 100 (b64_of_bits 0x7FEFFFFFFFFFFFFF) = gds_encode 0x7FEFFFFFFFFFFFFF /\
   rne53 (2 ^ 56 - 1) = (two52, 56) /\
-  in_gds_rangeb 4611686018427387904 = true.
+  in_gds_rangeb 4611686018427387904 = true /\
+  in_gds_rangeb 0x2FBDA48CE468E7C7 = true /\
+  flocq_encode_with (-65) (b64_of_bits 0x2FBDA48CE468E7C7) = 0x001DA48CE468E7C7 /\
+  flocq_encode_with (-63) (b64_of_bits 0x2FBDA48CE468E7C7) = 0x001DA48CE468E7C7 /\
+  bits_of_b64 (flocq_decode 0x001DA48CE468E7C7) = 0x2FBDA48CE468E7C7 /\
+  bits_of_b64 (flocq_decode (flocq_encode_with 0 (b64_of_bits 0x2FB0000000000000))) = 0x2FB0000000000000.
 Proof. vm_compute. repeat split; reflexivity. Qed.
 
 Print Assumptions C15B_decomp_is_flocq.
